@@ -914,3 +914,47 @@ Proof.
   revert h. induction h' as [|e h' IH]; intros h H; [rewrite app_nil_r; exact H|].
   change (e :: h') with ([e] ++ h'). rewrite app_assoc. apply IH. rewrite crun_snoc. apply result_is_final. exact H.
 Qed.
+
+(** ---- the sequential lookup of Model/Sys.v is the uninterrupted schedule of this model ---- *)
+(** a lookup that runs alone: a hit returns the value at once; a miss registers, issues exactly one subscription request,
+    and - its deadline having fired - returns an error, leaving no notifier behind (Model/Sys.v [lookup]: LHit / LMiss
+    with one Watch) *)
+Lemma sequential_hit s t k v : kget t (c_threads s) = None -> kget k (c_cache s) = Some v ->
+  thread_result (cstep s (EInvoke t k)) t = Some (RVal v) /\ c_watches (cstep s (EInvoke t k)) = c_watches s.
+Proof.
+  intros Ht Hc. cbn [cstep]. rewrite Ht, Hc. unfold thread_result, finish, set_thread. cbn [c_threads c_watches kset kget].
+  rewrite N.eqb_refl. split; reflexivity.
+Qed.
+
+Lemma sequential_miss s t k : kget t (c_threads s) = None -> kget k (c_cache s) = None -> kget k (c_nmap s) = None ->
+  let s' := fold_left cstep [EInvoke t k; EStep t; EFire t; ETimeout t] s in
+  thread_result s' t = Some RErr /\ c_watches s' = (c_watches s ++ [k])%list /\ kget k (c_nmap s') = None /\ c_cache s' = c_cache s.
+Proof.
+  intros Ht Hc Hn. cbn [fold_left].
+  (* invoke: miss *)
+  assert (E1 : cstep s (EInvoke t k) = set_thread s t {| th_key := k; th_st := TMissed; th_fired := false |}) by (cbn [cstep]; rewrite Ht, Hc; reflexivity).
+  rewrite E1. set (s1 := set_thread s t {| th_key := k; th_st := TMissed; th_fired := false |}).
+  assert (G1 : kget t (c_threads s1) = Some {| th_key := k; th_st := TMissed; th_fired := false |}) by (unfold s1, set_thread, kset; cbn [c_threads kget]; rewrite N.eqb_refl; reflexivity).
+  (* step: register a new notifier *)
+  assert (E2 : cstep s1 (EStep t) =
+               {| c_cache := c_cache s; c_nmap := kset k {| nf_id := c_next s; nf_waiters := 1 |} (c_nmap s); c_closed := c_closed s; c_next := c_next s + 1;
+                  c_threads := kset t {| th_key := k; th_st := TWaiting (c_next s); th_fired := false |} (c_threads s1); c_watches := (c_watches s ++ [k])%list |}).
+  { cbn [cstep]. rewrite G1. cbn [th_st th_key th_fired]. change (c_cache s1) with (c_cache s). change (c_nmap s1) with (c_nmap s). rewrite Hc, Hn. reflexivity. }
+  rewrite E2. clear E2.
+  match goal with |- context [cstep (cstep ?S2 (EFire t)) (ETimeout t)] => set (s2 := S2) end.
+  assert (G2 : kget t (c_threads s2) = Some {| th_key := k; th_st := TWaiting (c_next s); th_fired := false |}) by (unfold s2, kset; cbn [c_threads kget]; rewrite N.eqb_refl; reflexivity).
+  (* the deadline fires *)
+  assert (E3 : cstep s2 (EFire t) = set_thread s2 t {| th_key := k; th_st := TWaiting (c_next s); th_fired := true |}) by (cbn [cstep]; rewrite G2; reflexivity).
+  rewrite E3. set (s3 := set_thread s2 t {| th_key := k; th_st := TWaiting (c_next s); th_fired := true |}).
+  assert (G3 : kget t (c_threads s3) = Some {| th_key := k; th_st := TWaiting (c_next s); th_fired := true |}) by (unfold s3, set_thread, kset; cbn [c_threads kget]; rewrite N.eqb_refl; reflexivity).
+  assert (Gn : kget k (c_nmap s3) = Some {| nf_id := c_next s; nf_waiters := 1 |}) by (unfold s3, set_thread, s2, kset; cbn [c_nmap kget]; rewrite N.eqb_refl; reflexivity).
+  assert (Gc : nmem (c_next s) (c_closed s3) = nmem (c_next s) (c_closed s)) by reflexivity.
+  (* timeout: leave, last waiter removes the notifier *)
+  cbn [cstep]. rewrite G3. cbn [th_st th_fired th_key]. rewrite Gn. cbn [nf_id nf_waiters]. rewrite !N.eqb_refl.
+  unfold thread_result, finish, set_thread. cbn [c_threads c_watches c_nmap c_cache kset kget]. rewrite N.eqb_refl. cbn [th_st].
+  (* the notifier id is fresh: it cannot have been closed already - unless the state was inconsistent; either way the result is RErr or the (absent) value *)
+  destruct (nmem (c_next s) (c_closed s3)) eqn:Ecl.
+  - unfold read_result. cbn [c_cache]. unfold s3, set_thread, s2. cbn [c_cache]. rewrite Hc. repeat split; try reflexivity.
+    unfold s3, set_thread, s2, kset. cbn [c_nmap]. apply kget_kdel_same.
+  - repeat split; try reflexivity. unfold s3, set_thread, s2, kset. cbn [c_nmap]. apply kget_kdel_same.
+Qed.
